@@ -20,6 +20,58 @@ L = "_griffe.loader.GriffeLoader"
 MODELS = ("Object", "Module", "Class", "Function", "Attribute")
 
 
+def exports_table(prog: Program, ctx: Ctx, rule: str) -> None:
+    """What a module's `__all__` statements leave in `Module.exports`, on the visitor's own code (shared by C05-R4 and C01-R12)."""
+    ctx.rule(rule, "__all__ collection: the extraction table handles list/tuple/set/+/names/attributes/starred/constants; `__all__ += ...` extends "
+                   "exports exactly for the name __all__ in a module with the + operator; assignment to __all__ sets exports")
+    from sa.tables.extraction import Extraction
+
+    exn = Extraction(prog)
+    gm = prog.function("_griffe.agents.visitor.Visitor.get_module")
+
+    def shown(x: object) -> str:
+        if isinstance(x, str):
+            return x
+        try:
+            return "<" + exn.it.getattr(x, "canonical_path") + ">"  # a reference to another module's __all__, by the path it resolves to
+        except Raised:
+            return "<" + exn.it._str(x) + ">"
+
+    cases = {  # source -> the list Python builds, references to other modules' __all__ kept symbolic
+        '__all__ = ["a", "b"]': ["a", "b"],
+        '__all__ = ("a", "b")': ["a", "b"],
+        '__all__ = {"a"}': ["a"],
+        '__all__ = ["a"] + ["b"] + ["c"]': ["a", "b", "c"],
+        'from o import __all__ as o_all\n__all__ = [*o_all, "c"]': ["<o.__all__>", "c"],
+        'from o import __all__ as o_all\n__all__ = ["a", *o_all]': ["a", "<o.__all__>"],
+        'import o\n__all__ = o.__all__ + ["d"]': ["<o.__all__>", "d"],
+        'import o\n__all__ = ["d"] + o.__all__': ["d", "<o.__all__>"],
+        '__all__ = ["a"]\n__all__ += ["e", "f"]': ["a", "e", "f"],
+        'import o\n__all__ = ["a"]\n__all__ += o.__all__': ["a", "<o.__all__>"],
+        'import o\nimport p\n__all__ = ["a"]\n__all__ += o.__all__\n__all__ += p.__all__': ["a", "<o.__all__>", "<p.__all__>"],
+        'import o\n__all__ = ["a"]\n__all__ += o.__all__\n__all__ += o.__all__': ["a", "<o.__all__>", "<o.__all__>"],
+        '__all__ = ["a"]\n__all__ += ["e"]\n__all__ += ["g"]': ["a", "e", "g"],
+        '__all__ = ["a", "b"]\n__all__ += ["a", "c"]\n__all__ += ["c"]': ["a", "b", "a", "c", "c"],  # list concatenation keeps repeated items
+        '__all__ = ["a"]\nother = ["z"]\nother += ["y"]': ["a"],
+        '__all__ = ["a"]\nclass K:\n    pass\nK.__all__ = ["q"]': ["a"],
+        '__all__ = ["a"]\n__all__ = ["b"]': ["b"],
+        '__all__ = ["a"]\n__all__ = __all__ + ["g"]': ["a", "g"],
+        '__all__ = ["a"]\n__all__ = ["z"] + __all__': ["z", "a"],
+        '__all__: list[str] = ["a"]': ["a"],
+        'x = 1': None,
+        '__all__ = []': [],
+    }
+    for src, want in cases.items():
+        mod = exn.module(src + "\n")
+        if isinstance(mod, str):
+            got: object = mod
+        else:
+            ex_ = mod.attrs.get("exports")
+            got = None if ex_ is None else [shown(x) for x in ex_]
+        ctx.ob(rule, f"exports|{src}", got == want, f"`{src}` gives exports {got}; Python builds {want}", where(gm))
+
+
+
 def run(prog: Program, ctx: Ctx) -> None:  # noqa: PLR0912,PLR0915
     # ------------------------------------------------------------------ R1
     ctx.rule("R1", "is_wildcard_exposed equals `from m import *` semantics on every abstract state: runtime object with a module parent; "
@@ -111,51 +163,7 @@ def run(prog: Program, ctx: Ctx) -> None:  # noqa: PLR0912,PLR0915
     ctx.ob("R3", "alias-path", ok, "an alias's path is its own parent's path plus its own name", where(pth[0]) if pth else "")
 
     # ------------------------------------------------------------------ R4
-    ctx.rule("R4", "__all__ collection: the extraction table handles list/tuple/set/+/names/attributes/starred/constants; `__all__ += ...` extends "
-                   "exports exactly for the name __all__ in a module with the + operator; assignment to __all__ sets exports")
-    from sa.tables.extraction import Extraction
-
-    exn = Extraction(prog)
-    gm = prog.function("_griffe.agents.visitor.Visitor.get_module")
-
-    def shown(x: object) -> str:
-        if isinstance(x, str):
-            return x
-        try:
-            return "<" + exn.it.getattr(x, "canonical_path") + ">"  # a reference to another module's __all__, by the path it resolves to
-        except Raised:
-            return "<" + exn.it._str(x) + ">"
-
-    cases = {  # source -> the list Python builds, references to other modules' __all__ kept symbolic
-        '__all__ = ["a", "b"]': ["a", "b"],
-        '__all__ = ("a", "b")': ["a", "b"],
-        '__all__ = {"a"}': ["a"],
-        '__all__ = ["a"] + ["b"] + ["c"]': ["a", "b", "c"],
-        'from o import __all__ as o_all\n__all__ = [*o_all, "c"]': ["<o.__all__>", "c"],
-        'from o import __all__ as o_all\n__all__ = ["a", *o_all]': ["a", "<o.__all__>"],
-        'import o\n__all__ = o.__all__ + ["d"]': ["<o.__all__>", "d"],
-        'import o\n__all__ = ["d"] + o.__all__': ["d", "<o.__all__>"],
-        '__all__ = ["a"]\n__all__ += ["e", "f"]': ["a", "e", "f"],
-        'import o\n__all__ = ["a"]\n__all__ += o.__all__': ["a", "<o.__all__>"],
-        '__all__ = ["a"]\n__all__ += ["e"]\n__all__ += ["g"]': ["a", "e", "g"],
-        '__all__ = ["a", "b"]\n__all__ += ["a", "c"]\n__all__ += ["c"]': ["a", "b", "a", "c", "c"],  # list concatenation keeps repeated items
-        '__all__ = ["a"]\nother = ["z"]\nother += ["y"]': ["a"],
-        '__all__ = ["a"]\nclass K:\n    pass\nK.__all__ = ["q"]': ["a"],
-        '__all__ = ["a"]\n__all__ = ["b"]': ["b"],
-        '__all__ = ["a"]\n__all__ = __all__ + ["g"]': ["a", "g"],
-        '__all__ = ["a"]\n__all__ = ["z"] + __all__': ["z", "a"],
-        '__all__: list[str] = ["a"]': ["a"],
-        'x = 1': None,
-        '__all__ = []': [],
-    }
-    for src, want in cases.items():
-        mod = exn.module(src + "\n")
-        if isinstance(mod, str):
-            got: object = mod
-        else:
-            ex_ = mod.attrs.get("exports")
-            got = None if ex_ is None else [shown(x) for x in ex_]
-        ctx.ob("R4", f"exports|{src}", got == want, f"`{src}` gives exports {got}; Python builds {want}", where(gm))
+    exports_table(prog, ctx, "R4")
 
     # ------------------------------------------------------------------ R5
     ctx.rule("R5", "expand_exports: strings are kept, a referenced module's exports are spliced in place after that module was expanded itself; "
